@@ -225,6 +225,19 @@ def st_Assign(ex, st, s, cx):
         if ty is not None:
             s2, r = new_empty(ex, st, ty)
             return f(s2, r)
+    if isinstance(v, ast.ListComp) and len(s.targets) == 1 and (len(v.generators) > 1 or v.generators[0].ifs):
+        # a nested / filtered comprehension is abstracted: some fresh list of the declared type, of any length and content
+        ty = target_decl_type(ex, st, s.targets[0], cx)
+        if ty is not None:
+            if ty.kind == 'opt':
+                ty = ty.args[0]
+            n = ex.fresh_z(z3.IntSort(), 'complen')
+            arr = ex.fresh_z(z3.ArraySort(z3.IntSort(), T.sort_of(ty.args[0])), 'comparr')
+            s2, r = ex.new_list(st.assume(n >= 0), ty, n, arr, 'comp')
+            note = f'comprehension abstracted to an arbitrary fresh list (exceptions of its element expression ignored): {ast.unparse(v)[:70]}'
+            if note not in ex.notes:
+                ex.notes.append(note)
+            return f(s2, r)
     return ex.ev(st, s.value, cx, f)
 
 
@@ -459,9 +472,16 @@ def loop_core(ex, st, s, cx, o, spec, guard_fn, bind_fn, idx_sv, extra_inv=None,
     scx.module, scx.cls = cx.module, cx.cls
 
     def inv_state(state):
-        # expose the counter under its contract name
+        # expose the counter under its contract name (and those of the enclosing loops under theirs)
         if cname in state.vars:
             state = state.setvar(idx_name, state.vars[cname])
+        po = o
+        while '.' in po:
+            po = po.rsplit('.', 1)[0]
+            pc = cx.contract if cx.contract is not None else ex.reg.primary(cx.fi.key)
+            pspec = pc.loops.get(po) if pc is not None else None
+            if pspec is not None and f'$i{po}' in state.vars and pspec.get('idx', '_i') != idx_name:
+                state = state.setvar(pspec.get('idx', '_i'), state.vars[f'$i{po}'])
         if spec.get('seq') and f'$it{o}' in state.vars:
             # the sequence being iterated (for a set: the arbitrary enumeration of its members), by its contract name
             state = state.setvar(spec['seq'], state.vars[f'$it{o}'])
@@ -856,6 +876,8 @@ def apply_block(ex, st, name, spec, bstmts, cx):
     scx = cx.as_spec()
     scx.module, scx.cls = cx.module, cx.cls
     label = f'{cx.label}/block[{name}]'
+    if 'on_return' in spec:
+        raise VCError(f'block[{name}] may return from the function: usable only under blocks_only (verified, never applied)')
     pre = st
     for i, r in enumerate(spec.get('requires', [])):
         g = eval_clause(ex, pre, r, scx)
